@@ -496,6 +496,7 @@ func GenPhysical(t *rapid.T, w *Workbook) {
 	o.NoStyles = rapid.IntRange(0, 6).Draw(t, "noStyles") == 0
 	o.NoDocProps = rapid.IntRange(0, 3).Draw(t, "noDocProps") == 0
 	o.NoTheme = rapid.IntRange(0, 2).Draw(t, "noTheme") == 0
+	o.StaleRels = rapid.IntRange(0, 4).Draw(t, "staleRels") == 0
 	o.SheetAttrOrder = rapid.SampledFrom([]int{0, 0, 0, 1, 2}).Draw(t, "sheetAttrOrder")
 	o.Strict = rapid.IntRange(0, 3).Draw(t, "strict") == 0
 	if rapid.IntRange(0, 9).Draw(t, "workbookPrefix") == 0 {
